@@ -9,7 +9,7 @@ fn build() -> Vec<Box<dyn Property>> {
         let mut v: Vec<Box<dyn Property>> = vec![];
         for id in ["C18", "C19"] {
             for s in stages(id) {
-                if !s.prop.stage().contains("debug") && s.prop.stage() != "asan" {
+                if vcore::props::registry::fuzzable(&s) {
                     v.push(s.prop);
                 }
             }
